@@ -94,6 +94,9 @@ class Exec:
             if name in fr.env: return fr.env[name]
             if fr.parent_depth is None: break
             fr = st.frames[fr.parent_depth]
+        if getattr(fr, "class_scope", False) and fr.cls is not None:      # names in a class body see earlier class attributes
+            for kk in S.mro(fr.cls):
+                if name in kk.attrs: return self.const_eval(kk.module, kk.attrs[name], kk)
         return self.lookup_global(fr.mod, name)
 
     def lookup_global(self, mod, name):
@@ -153,8 +156,8 @@ class Exec:
             return False
         return v if plain(v) else NotImplemented
 
-    def const_eval(self, mod, node):
-        st = State(); st.frames = [Frame(mod, None, {})]
+    def const_eval(self, mod, node, cls=None):
+        st = State(); st.frames = [Frame(mod, cls, {})]; st.frames[0].class_scope = cls is not None
         res = list(self.ev(node, st))
         assert len(res) == 1 and not isinstance(res[0][1], Raise), ast.unparse(node)
         return res[0][1]
@@ -239,7 +242,7 @@ class Exec:
         if isinstance(base, ModRef):
             if base.name in ("errors", "ranges", "fields", "checks", "data", "interface", "validio", "rowio", "_tools", "_compat", "sql"):
                 yield st, self.lookup_global(S.module(base.name), attr); return
-            if base.name in ("token", "tokenize", "string", "csv", "xlrd", "os", "sys"):
+            if base.name in ("token", "tokenize", "string", "csv", "xlrd", "os", "sys", "re", "zipfile", "decimal", "time"):
                 import importlib
                 try: v = getattr(importlib.import_module(base.name), attr, None)
                 except ImportError: v = None
@@ -267,7 +270,7 @@ class Exec:
                     yield st, FuncRef(k.module, k, m, bound=(None if attr in k.statics else base)); return
                 for kk in S.mro(cls):
                     if attr in kk.attrs:
-                        yield st, self.const_eval(kk.module, kk.attrs[attr]); return
+                        yield st, self.const_eval(kk.module, kk.attrs[attr], kk); return
             if base.cls in BUILTIN_EXC or attr in ("args",):
                 raise Unsupported("attr %s of %r" % (attr, base))
             yield st, Raise(self.new_builtin_exc(st, "AttributeError", ["%s has no attribute %s" % (base.cls, attr)])); return
@@ -280,7 +283,7 @@ class Exec:
             yield st, BuiltinRef("object." + attr, bound=base.obj); return
         if isinstance(base, ClassRef):
             for kk in S.mro(base.info):
-                if attr in kk.attrs: yield st, self.const_eval(kk.module, kk.attrs[attr]); return
+                if attr in kk.attrs: yield st, self.const_eval(kk.module, kk.attrs[attr], kk); return
                 if attr in kk.methods: yield st, FuncRef(kk.module, kk, kk.methods[attr], bound=None); return
             raise Unsupported("class attr %s.%s" % (base.info.name, attr))
         if isinstance(base, Sym) and base.ty.kind == "abs":
@@ -552,7 +555,8 @@ class Exec:
             yield st, self.format(st, a, b); return
         if not isinstance(a, (Sym, UFL)) and not isinstance(b, (Sym, UFL)) and not isinstance(a, Ref) and not isinstance(b, Ref):
             import operator
-            f = {ast.Add: operator.add, ast.Sub: operator.sub, ast.Mult: operator.mul, ast.FloorDiv: operator.floordiv, ast.Mod: operator.mod, ast.Pow: operator.pow}[type(op)]
+            f = {ast.Add: operator.add, ast.Sub: operator.sub, ast.Mult: operator.mul, ast.FloorDiv: operator.floordiv, ast.Mod: operator.mod, ast.Pow: operator.pow,
+                 ast.BitOr: operator.or_, ast.BitAnd: operator.and_, ast.BitXor: operator.xor, ast.LShift: operator.lshift, ast.RShift: operator.rshift, ast.Div: operator.truediv}[type(op)]
             yield st, f(a, b); return
         if isinstance(op, ast.Mult) and isinstance(a, list) and len(a) == 1 and isinstance(b, Sym) and b.ty.kind == "int":
             yield st, RepeatList(a[0], b); return         # [x] * n
